@@ -8,12 +8,19 @@
     `str(obj)` / `atom.fullname.upper()`          `St.text`, `St.name`      (texts and names are interned:
                                                                             equal numbers = equal strings)
     `Atoms._atomsdict`                           `St.cache`                ([] = "not built", as `if not self._atomsdict`)
+    attributes that `__init__` sets to `None` / a default and `_parse_cards` assigns only when it meets the
+    instruction (`self.plan = self._assign_card(PLAN(…))`, `self.temp_in_kelvin = …` under `word == 'TEMP'`)
+                                                 `St.slots` (object-valued), `St.vals` (scalars), `slotGet`, `valGet`
     `Shelxfile.index_of`, `Atom.index`, `Command.index/position`, `FVARs.position`   `indexOf`
     `Atom.atomid`                                `atomid`     (ValueError -> 0, as the code does)
     `Atoms.get_atom_by_id`, `get_atom_by_name`   `byId`, `byName`
     `Atoms.__delitem__` (loop that deletes from the list it iterates over), `Atom.delete`,
     `add_line`, `Atom.name = …`, element/`to_isotropic`/`Command.set`/`LSCycles.number` (text changes, identity kept),
     `read_string/read_file/reload` (`self.__init__()` then parse)                     `step`
+  Parsing only ADDS to what the object holds (`load`: appends atoms and instruction objects to the lists, assigns the
+  attributes whose instruction occurs, leaves every other attribute alone); that a read starts from nothing is the work
+  of the constructor re-run alone (`reinit`).  A file without `TEMP`/`PLAN`/… therefore shows whether `reinit` is
+  complete: `read_attrs_spec`, `load_alone_keeps_old_attr` in ShelxProps/C08.lean.
 
   `list.index(v)` is evaluated as CPython does: first slot whose item `is v` or `item == v`; `==` between an
   `Atom` and anything compares the two `__str__` texts (atom.py `__eq__`, also as the reflected operand when the
@@ -35,9 +42,11 @@ deriving DecidableEq, Repr, Inhabited
 
 /-- one line of an input file, as `_parse_cards` classifies it -/
 inductive Line where
-  | raw  (t : Nat)                  -- stays a string (TITL, END, blank, continuation, unknown …)
+  | raw  (t : Nat) (k : Option Nat) -- stays a string (TITL, END, blank, continuation, unknown …); `some k`: the parser
+                                    --   also computes the scalar attribute `k` from it (TEMP, LIST, EXTI, TITL …)
   | atom (t : Nat) (name : Nat)     -- becomes an Atom; `t` = its printed line, `name` = NAME_RESINUM upper-cased
-  | card (t : Nat)                  -- becomes an instruction object
+  | card (t : Nat) (k : Option Nat) -- becomes an instruction object; `some k`: the object is also assigned to the
+                                    --   attribute `k` of the Shelxfile (`shx.plan`, `shx.cell` …), `none`: appended to a list
 deriving DecidableEq, Repr, Inhabited
 
 structure Cfg where
@@ -56,8 +65,12 @@ structure St where
   name  : Nat → Nat
   cache : List (Nat × Nat)      -- (name, atom) in insertion order; later entries win (dict semantics)
   gone  : List Nat              -- ghost: atoms removed from `all_atoms` since the last read (never read by the model)
+  slots : List (Nat × Nat)      -- assignments `self.<k> = <instruction object u>` in the order they were executed;
+                                --   the attribute hands out the last one (`slotGet`), `None` when there is none
+  vals  : List (Nat × Nat)      -- assignments `self.<k> = <scalar computed from the line with text t>`, same order
 
-def init : St := { res := [], atoms := [], cards := [], text := fun _ => 0, name := fun _ => 0, cache := [], gone := [] }
+def init : St := { res := [], atoms := [], cards := [], text := fun _ => 0, name := fun _ => 0, cache := [], gone := [],
+                   slots := [], vals := [] }
 
 /-! ### model: positions -/
 
@@ -103,6 +116,12 @@ def dictGet (n : Nat) : List (Nat × Nat) → Option Nat
     match dictGet n r with
     | some w => some w
     | none => if k == n then some v else none
+
+/-- `shx.<k>` for an object-valued attribute: the object assigned last; `none` = the constructor's `None` -/
+def slotGet (s : St) (k : Nat) : Option Nat := dictGet k s.slots
+
+/-- `shx.<k>` for a scalar attribute: the text of the line it was computed from; `none` = the constructor's default -/
+def valGet (s : St) (k : Nat) : Option Nat := dictGet k s.vals
 
 /-- `Atoms.get_atom_by_name` (on the upper-cased NAME_RESINUM) -/
 def byName (s : St) (n : Nat) : Option Nat := dictGet n (effCache s)
@@ -153,9 +172,9 @@ deriving Repr, Inhabited
 
 def resOf : Nat → List Line → List Entry
   | _, [] => []
-  | i, .raw t :: ls => .raw t :: resOf (i + 1) ls
+  | i, .raw t _ :: ls => .raw t :: resOf (i + 1) ls
   | i, .atom _ _ :: ls => .atom i :: resOf (i + 1) ls
-  | i, .card _ :: ls => .card i :: resOf (i + 1) ls
+  | i, .card _ _ :: ls => .card i :: resOf (i + 1) ls
 
 def atomsOf : Nat → List Line → List Nat
   | _, [] => []
@@ -164,14 +183,26 @@ def atomsOf : Nat → List Line → List Nat
 
 def cardsOf : Nat → List Line → List Nat
   | _, [] => []
-  | i, .card _ :: ls => i :: cardsOf (i + 1) ls
+  | i, .card _ _ :: ls => i :: cardsOf (i + 1) ls
   | i, _ :: ls => cardsOf (i + 1) ls
+
+/-- the assignments `self.<k> = self._assign_card(…)` that parsing the file executes, in file order -/
+def slotsOf : Nat → List Line → List (Nat × Nat)
+  | _, [] => []
+  | i, .card _ (some k) :: ls => (k, i) :: slotsOf (i + 1) ls
+  | i, _ :: ls => slotsOf (i + 1) ls
+
+/-- the assignments of scalar attributes that parsing the file executes, in file order -/
+def valsOf : List Line → List (Nat × Nat)
+  | [] => []
+  | .raw t (some k) :: ls => (k, t) :: valsOf ls
+  | _ :: ls => valsOf ls
 
 def textAt (f : List Line) (u : Nat) : Nat :=
   match f[u]? with
-  | some (.raw t) => t
+  | some (.raw t _) => t
   | some (.atom t _) => t
-  | some (.card t) => t
+  | some (.card t _) => t
   | none => 0
 
 def nameAt (f : List Line) (u : Nat) : Nat :=
@@ -181,11 +212,15 @@ def nameAt (f : List Line) (u : Nat) : Nat :=
 
 /-- `self.__init__(…)`: the constructor assigns every field again -/
 def reinit (s : St) : St :=
-  { s with res := [], atoms := [], cards := [], text := fun _ => 0, name := fun _ => 0, cache := [], gone := [] }
+  { s with res := [], atoms := [], cards := [], text := fun _ => 0, name := fun _ => 0, cache := [], gone := [],
+           slots := [], vals := [] }
 
-/-- `_parse_cards`: objects are created per line (identity = line number) and stored in their slot and list -/
+/-- `self._reslist = text.splitlines()` + `_parse_cards`: objects are created per line (identity = line number) and
+stored in their slot; atoms and instruction objects are APPENDED to the lists the object has, attributes are assigned
+where the file has the instruction and keep what they hold where it has not -/
 def load (f : List Line) (s : St) : St :=
-  { s with res := resOf 0 f, atoms := atomsOf 0 f, cards := cardsOf 0 f, text := textAt f, name := nameAt f }
+  { s with res := resOf 0 f, atoms := s.atoms ++ atomsOf 0 f, cards := s.cards ++ cardsOf 0 f,
+           slots := s.slots ++ slotsOf 0 f, vals := s.vals ++ valsOf f, text := textAt f, name := nameAt f }
 
 def read (f : List Line) (s : St) : St := load f (reinit s)
 
@@ -219,14 +254,16 @@ def run (c : Cfg) : List Op → St → St
 def holdsAt (c : Cfg) (s : St) (e : Entry) : Prop :=
   (indexOf c s e).bind (fun i => s.res[i]?) = some e
 
-/-- the property, after any step -/
+/-- the property, after any step (the last clause: an instruction object that an attribute of the Shelxfile hands
+out — `shx.plan`, `shx.cell`, `shx.wght` … — is an object of the file) -/
 def Inv8 (c : Cfg) (s : St) : Prop :=
   (∀ a ∈ s.atoms, holdsAt c s (.atom a)) ∧
   (∀ k ∈ s.cards, holdsAt c s (.card k)) ∧
   (s.atoms.Nodup ∧ ∀ a ∈ s.atoms, ∀ b ∈ s.atoms, atomid c s a = atomid c s b → a = b) ∧
   (∀ a ∈ s.atoms, byId c s (atomid c s a) = some a) ∧
   (∀ a ∈ s.atoms, (∀ b ∈ s.atoms, s.name b = s.name a → b = a) → byName s (s.name a) = some a) ∧
-  (∀ g ∈ s.gone, g ∉ s.atoms ∧ Entry.atom g ∉ s.res ∧ g ∉ (effCache s).map (·.2))
+  (∀ g ∈ s.gone, g ∉ s.atoms ∧ Entry.atom g ∉ s.res ∧ g ∉ (effCache s).map (·.2)) ∧
+  (∀ p ∈ s.slots, ∀ u ∈ slotGet s p.1, holdsAt c s (.card u))
 
 instance (c : Cfg) (s : St) (e : Entry) : Decidable (holdsAt c s e) := by unfold holdsAt; infer_instance
 instance (c : Cfg) (s : St) : Decidable (Inv8 c s) := by unfold Inv8; infer_instance
@@ -238,7 +275,51 @@ def clauses (c : Cfg) (s : St) : List Bool :=
     decide (s.atoms.Nodup ∧ ∀ a ∈ s.atoms, ∀ b ∈ s.atoms, atomid c s a = atomid c s b → a = b),
     decide (∀ a ∈ s.atoms, byId c s (atomid c s a) = some a),
     decide (∀ a ∈ s.atoms, (∀ b ∈ s.atoms, s.name b = s.name a → b = a) → byName s (s.name a) = some a),
-    decide (∀ g ∈ s.gone, g ∉ s.atoms ∧ Entry.atom g ∉ s.res ∧ g ∉ (effCache s).map (·.2)) ]
+    decide (∀ g ∈ s.gone, g ∉ s.atoms ∧ Entry.atom g ∉ s.res ∧ g ∉ (effCache s).map (·.2)),
+    decide (∀ p ∈ s.slots, ∀ u ∈ slotGet s p.1, holdsAt c s (.card u)) ]
+
+/-- the attributes that hold an object, with the object (for the driver's report) -/
+def slotTable (s : St) : List (Nat × Nat) :=
+  (s.slots.map (·.1)).eraseDups.filterMap fun k => (slotGet s k).map fun u => (k, u)
+
+/-! ### spec of the attributes: a function of the file that was read last, of nothing else -/
+
+/-- does line `l` put an object into attribute `k`? -/
+def Line.setsSlot (k : Nat) : Line → Bool
+  | .card _ (some k') => k' == k
+  | _ => false
+
+/-- does line `l` compute the scalar attribute `k`? -/
+def Line.setsVal (k : Nat) : Line → Option Nat
+  | .raw t (some k') => if k' == k then some t else none
+  | _ => none
+
+/-- the position of the LAST line of the file that satisfies `p` (positions count from `i`) -/
+def lastPos (p : Line → Bool) : Nat → List Line → Option Nat
+  | _, [] => none
+  | i, l :: ls =>
+    match lastPos p (i + 1) ls with
+    | some j => some j
+    | none => if p l then some i else none
+
+/-- what `shx.<k>` has to hand out after reading `f`: the object of the last instruction `k` of THIS file;
+nothing if the file has no such instruction -/
+def specSlot (f : List Line) (k : Nat) : Option Nat := lastPos (Line.setsSlot k) 0 f
+
+/-- what the scalar attribute `k` has to be after reading `f`: computed from the last line of THIS file that sets it;
+the default if the file has none -/
+def specVal : List Line → Nat → Option Nat
+  | [], _ => none
+  | l :: ls, k =>
+    match specVal ls k with
+    | some t => some t
+    | none => l.setsVal k
+
+/-- the file that the object holds after a history: the one read last -/
+def lastFile (f : List Line) : List Op → List Line
+  | [] => f
+  | .read g :: ops => lastFile g ops
+  | _ :: ops => lastFile f ops
 
 /-- the views that are filters of `all_atoms` (hydrogen_atoms, riding_atoms, q_peaks) -/
 def view (p : Nat → Bool) (s : St) : List Nat := s.atoms.filter p
